@@ -200,13 +200,14 @@ NonBlank(L) == LET S == SelectSeq(L, LAMBDA x : x.t # "") IN [j \in 1..Len(S) |-
 GapsOf(L) == LET idx == SelectSeq([j \in 1..Len(L) |-> j], LAMBDA j : L[j].t # "")
              IN [k \in 1..Len(idx) |-> idx[k] - (IF k = 1 THEN 0 ELSE idx[k - 1]) - 1]
 FixViolated(src, o) ==
-  LET L == o.lines  n == Len(L) IN
-       (IF n >= 2 /\ IsEmptyLine(L[n]) /\ (n = 2 \/ ~IsEmptyLine(L[n - 1])) THEN {} ELSE {"final-newline"})
+  LET L == o.lines  n == Len(L)
+      nbo == NonBlank(L)  nbs == NonBlank(src)
+      go == GapsOf(L)     gs == GapsOf(src)
+  IN   (IF n >= 2 /\ IsEmptyLine(L[n]) /\ (n = 2 \/ ~IsEmptyLine(L[n - 1])) THEN {} ELSE {"final-newline"})
   \cup (IF \A j \in 1..n : L[j].r = 0 THEN {} ELSE {"trailing-blanks"})
   \cup (IF o.again = L THEN {} ELSE {"idempotent"})
-  \cup (IF NonBlank(L) = NonBlank(src) THEN {} ELSE {"lines"})                \* no line with content is touched
-  \cup (IF NonBlank(L) = NonBlank(src) /\ \E k \in 1..Len(GapsOf(L)) : GapsOf(L)[k] > GapsOf(src)[k]
-        THEN {"blank-added"} ELSE {})                                         \* blank lines are only removed
+  \cup (IF nbo = nbs THEN {} ELSE {"lines"})                                  \* no line with content is touched
+  \cup (IF nbo = nbs /\ \E k \in 1..Len(go) : go[k] > gs[k] THEN {"blank-added"} ELSE {})   \* blank lines are only removed
   \cup (IF o.parses /\ ~o.ast_same THEN {"ast"} ELSE {})
 
 \* a comment planted at par.origin and rendered into a module: o.compiles (the module still compiles),
